@@ -28,6 +28,8 @@ ENCODED = ["luna/gateware/usb/usb2/endpoint.py: USBEndpointMultiplexer (broadcas
 ASSUMPTIONS = [
     "full speed over UTMI, tx_ready = 1, line idle, VBUS present; slotted host with fixed packet timing (32-cycle slots), "
     "host ACKs only data the device sent in that slot, no lone handshakes, no SET_ADDRESS (address stays 0)",
+    "legal host: no SETUP token to a non-control endpoint (the control endpoint's setup decoder does not look at the endpoint "
+    "number; see C20)",
     "both devices get the same IN stream (always valid, symbolic constant byte, no `last`) and an always-ready OUT consumer",
     "OUT payloads of one byte (IN endpoint under test: zero-length) with DATA0/DATA1 PID and optional CRC corruption",
     "the per-slot (kind, flag, DATA PID) choices are enumerated as separate solver queries (cubes); endpoint numbers 0..3, "
@@ -79,7 +81,7 @@ class IsoHarness(Harness):
                                             "out_token_answer"]}
         self.c = {n: self.cover(n) for n in ["x_after_other_traffic", "x_data_after_foreign_ack", "x_second_packet",
                                              "out_delivered"]}
-        self.a = {n: self.assume(n) for n in ["legal", "no_hsk", "no_set_address"]}
+        self.a = {n: self.assume(n) for n in ["legal", "no_hsk", "no_set_address", "no_setup_other_ep"]}
 
     def elaborate(self, platform):
         m = Module()
@@ -106,11 +108,13 @@ class IsoHarness(Harness):
         else:
             m.d.comb += self.b_x.stream.ready.eq(1)
         n = self.nslots
-        nohsk, noaddr = Const(1), Const(1)
+        nohsk, noaddr, nosetup = Const(1), Const(1), Const(1)
         for i in range(n):
             nohsk = nohsk & (hA.kind[i] != KIND_HSK)
+            nosetup = nosetup & ~((hA.kind[i] == KIND_SETUP) & (hA.ep[i] != 0))
             noaddr = noaddr & ~((hA.kind[i] == KIND_SETUP) & (hA.data[i][5:7] == 0) & (hA.data[i][8:16] == 5))
-        m.d.comb += [self.a["legal"].eq(hA.legal), self.a["no_hsk"].eq(nohsk), self.a["no_set_address"].eq(noaddr)]
+        m.d.comb += [self.a["legal"].eq(hA.legal), self.a["no_hsk"].eq(nohsk), self.a["no_set_address"].eq(noaddr),
+                     self.a["no_setup_other_ep"].eq(nosetup)]
 
         live = ~hA.done
         to_us = (hA.cur_addr == 0)
@@ -220,6 +224,12 @@ def queries(tier):
         if tier == "quick":
             # quick: the third transaction is of X's own kind (first X packet / foreign traffic / next X packet)
             cubes = [c for c in cubes if c[0][2] == ("I" if x == "in" else "Q")]
+            # ... plus a control transfer before it: the control endpoint's data stage (another transmitter, another data
+            # toggle) directly before X's transaction
+            # (with the host's ACK withheld, "i": with it the control transfer's second data packet makes the cube exceed
+            #  the memory cap)
+            extra = ("SiI",) if x == "in" else ("SiQ",)
+            cubes += [c for c in slot_cubes(3, "SIiQ", defaults=dict(olen=1) if x == "out" else dict(olen=0)) if c[0] in extra]
         else:
             # thorough: the last transaction is one of X's own kind (the comparison is made in X's slots), any two before it
             # (7 x 7 x 3 = 147 cubes per endpoint under test instead of 343)
